@@ -28,6 +28,7 @@ Answer:  `t=<id.path.err,…|-> s=<status|->`   (err = `n` or the status in the 
 import CaddyModel.Util.Hex
 import CaddyModel.C05.Model
 import CaddyModel.C05.WitnessData
+import CaddyModel.C05.Adapt
 
 namespace CaddyModel.C05
 
@@ -190,6 +191,7 @@ def kindKey : Matcher → Nat
   | .legacy true => 9
   | .errRange _ _ => 10
   | .errIn _ => 10
+  | .errSel _ _ => 10
 
 def distinct : List Nat → Bool
   | [] => true
@@ -202,6 +204,7 @@ def mValid : Matcher → Bool
   | .legacy _ => true
   | .errRange lo hi => 100 ≤ lo && lo ≤ 599 && 100 ≤ hi && hi ≤ 599
   | .errIn codes => !codes.isEmpty && codes.all (fun c => 100 ≤ c && c ≤ 599)
+  | .errSel _ _ => false      -- only produced by the adapter model (op `he`), never written in a tree
   | .not sets => setsValid sets
 def setsValid : List (List Matcher) → Bool
   | [] => true
@@ -259,7 +262,76 @@ def handleCase (routes errs req named : String) : String :=
       | none => "bad-op"
   | _, _, _ => "bad-op"
 
+/-! op `he`: a Caddyfile site `error <S>` + `handle_errors` blocks, adapted and asked for path P
+
+    he <S> <P> <blocks>      blocks = B (A hexarg^A D (PATH ST)^D)^B     PATH 0 = no matcher, k = path k-1
+  answer  `he err` (adapter refuses) | `he unloadable` | `he s=<status> r=<route;…>` with route =
+          `E<hex of the expression>` | `P<path>` | `-` (no matcher)                                -/
+
+def pathLen : Nat → Nat
+  | 0 => 1 | 1 => 2 | 2 => 4 | 3 => 2 | 4 => 2 | 5 => 4 | _ => 0
+
+partial def pDir : P Dir := fun toks => do
+  let (p, toks) ← pNat toks
+  let (st, toks) ← pNat toks
+  if p > 6 then none else pure (⟨if p == 0 then none else some (p - 1), st⟩, toks)
+
+partial def pBlock : P Block := fun toks => do
+  let (a, toks) ← pNat toks
+  let (args, toks) ← pMany (fun ts => match ts with
+      | t :: rest => (Hex.decode t).map (·, rest)
+      | [] => none) a toks
+  let (d, toks) ← pNat toks
+  let (dirs, toks) ← pMany pDir d toks
+  pure (⟨args, dirs⟩, toks)
+
+def parseBlocksField (s : String) : Option (List Block) :=
+  match (do let (b, toks) ← pNat (s.splitOn ","); pMany pBlock b toks) with
+  | some (bs, []) => some bs
+  | _ => none
+
+/-- the body order `buildSubroute` leaves: longer paths first, matcher-less directives last -/
+def dirsSorted : List Dir → Bool
+  | [] => true
+  | [_] => true
+  | a :: b :: rest =>
+    (match a.path, b.path with
+      | some p, some q => pathLen p ≥ pathLen q
+      | some _, none => true
+      | none, some _ => false
+      | none, none => true) && dirsSorted (b :: rest)
+
+def blocksValid (bs : List Block) : Bool :=
+  bs.length ≤ 4 && bs.all fun b =>
+    b.args.length ≤ 4 && b.dirs.length ≤ 3 && dirsSorted b.dirs &&
+      b.dirs.all (fun d => 200 ≤ d.status && d.status ≤ 599)
+
+def dirDesc (a : StatusArgs) (d : Dir) : String :=
+  if a.classes.isEmpty && a.codes.isEmpty then
+    match d.path with
+    | some p => s!"P{p}"
+    | none => "-"
+  else "E" ++ Hex.encode (renderExpr a)
+
+def handleHE (sF pF blocksF : String) : String :=
+  match natTok sF, natTok pF, parseBlocksField blocksF with
+  | some s, some p, some bs =>
+    if !(400 ≤ s && s ≤ 599) || p ≥ 6 || !blocksValid bs then "bad-op" else
+    match adapt bs, parseBlocks bs with
+    | .err, _ => "he err"
+    | .unloadable, _ => "he unloadable"
+    | .routes errs, some ps =>
+      let sorted := C16.insertionSort (fun x y => blockLess x.1 y.1)
+        (ps.map fun q => (blockRoutes q.1 q.2, q.2.map (dirDesc q.1)))
+      let descs := (sorted.map (·.2)).flatten
+      let res := serve [.mk 0 [] [.raise (.lit s)] false] true errs ⟨0, 0, p, 0, [], none, none⟩
+      "he s=" ++ (match res.status with | none => "-" | some c => toString c) ++
+        " r=" ++ (if descs.isEmpty then "-" else ";".intercalate descs)
+    | .routes _, none => "bad-op"
+  | _, _, _ => "bad-op"
+
 def handle : List String → String
+  | ["he", s, p, blocks] => handleHE s p blocks
   | [routes, errs, req] => handleCase routes errs req "0"
   | [routes, errs, req, named] => if named == "0" then "bad-op" else handleCase routes errs req named
   | _ => "bad-op"
@@ -279,6 +351,7 @@ def encMatcher : Matcher → List String
   | .legacy b => ["l", if b then "1" else "0"]
   | .errRange lo hi => ["c", toString lo, toString hi]
   | .errIn codes => ["k", toString codes.length] ++ codes.map toString
+  | .errSel _ _ => ["?"]
   | .not sets => ["n", toString sets.length] ++ encSets sets
 def encSets : List (List Matcher) → List String
   | [] => []
@@ -323,6 +396,10 @@ def witnessLines : List String :=
   [ encCase wRewriteRoutes true wRewriteErrs wReq,
     encCase wStaleRoutes true wStaleErrs wReq,
     encCase (wOrderRoutes wSetA) false [] wReq,
-    encCase (wOrderRoutes wSetB) false [] wReq ]
+    encCase (wOrderRoutes wSetB) false [] wReq,
+    -- AdaptProps.handle_errors_inner_matcher_dropped: `handle_errors 404 { respond /a 201 }`, 404 on /b
+    "he 404 3 1,1,343034,1,2,201",
+    -- AdaptProps.adapter_accepts_unloadable_plus_code: `handle_errors +40 { respond 201 }`
+    "he 404 1 1,1,2b3430,1,0,201" ]
 
 end CaddyModel.C05
